@@ -47,7 +47,7 @@ def build(prog, vals, mode, n, p, pin_extra=True):
             g = rt.PrivVal(1 if mode == "g1" else 0)
             fixed[len(H.R.vars)] = g.value
             res = rt.guarded(g)(lambda: E._apply(prog["expr"], operands, out))()
-        elif mode == "reuse":
+        elif mode in ("reuse", "reuse-ign"):
             # history: the same call on the SAME operand objects inside a branch that is not taken,
             # then again at top level; the second result must still be uniquely determined
             c = H.boolean.PrivValBool(0)
@@ -58,10 +58,18 @@ def build(prog, vals, mode, n, p, pin_extra=True):
                 r = r[0] if isinstance(r, tuple) else r
                 return r if isinstance(r, (rt.LinComb, H.boolean.LinCombBool, H.fixedpoint.LinCombFxp)) else 0
             H.branching.if_then_else(c, untaken, 0)
-            res = E._apply(prog["expr"], operands, out)
+            if mode == "reuse-ign":
+                rt.ignore_errors(True)
+                try:
+                    res = E._apply(prog["expr"], operands, out)
+                finally:
+                    rt.ignore_errors(False)
+            else:
+                res = E._apply(prog["expr"], operands, out)
         inst.status, inst.exc = "ok", None
     except Exception as ex:  # noqa: BLE001
         inst.status, inst.exc = "raise", type(ex).__name__
+    rt.guard, rt._ignore_errors, rt.LinComb.ONE = None, False, rt.LinComb.ONE_SAFE
     inst.cons = list(H.R.cons)
     inst.nvars = len(H.R.vars)
     for i, k in enumerate(prog["kinds"]):
